@@ -262,7 +262,8 @@ def write_replay(pid: str, seed: int, n: int, body: dict) -> str:
 
 def write_evidence(pid: str, tier: str, seed: int, lean: LeanSide, ctx: Ctx, wall: float, violations: int,
                    level: str, trusted: list[str], extra: dict) -> None:
-    d = os.path.join(VERIF, "evidence")
+    # seeded-change experiments redirect their evidence so that evidence/ always describes /repo itself
+    d = os.environ.get("VERIF_EVIDENCE_DIR") or os.path.join(VERIF, "evidence")
     os.makedirs(d, exist_ok=True)
     cov = {
         "obligations": len(lean.theorems),
